@@ -201,6 +201,10 @@ fn build_group(c: &CS) -> Condition {
             if *negate {
                 g = g.not();
             }
+            // `.not()` toggles: two more calls leave the group as it is (chosen by a function of the group, so the case stays the spec)
+            if crate::runner::fingerprint(c) % 3 == 0 {
+                g = g.not().not();
+            }
             g
         }
     }
